@@ -196,6 +196,21 @@ CLAIMED = {
         "fits a clone (documented); sktime's clone/reset are exercised, not specified.",
         "TLA+ history model checked with TLC + spec-generated histories replayed against fresh objects",
     ),
+    "C11": (
+        "7/C11",
+        "Representations.tla",
+        "TLC enumerates the full product detector x entry point x container x dtype x index kind x column "
+        "labels x p x {integer, half-integer values} (2775 admissible grid points) and checks on the model of "
+        "the entry-point conversions that the values the algorithm sees are the abstract matrix and that "
+        "dense outputs carry the input's own index (negative configurations: look-up by index label, integer "
+        "cast); every grid point is replayed with two parameter sets per detector against the canonical "
+        "representation (integer locations, labels, scores, fitted thresholds/penalties, index of dense "
+        "outputs), and ten interval scorers are fitted/evaluated for every representation.",
+        "The specification contributes the grid and the two preservation invariants; the decision is the "
+        "replayed comparison with the canonical representation. `update` is compared for equal index labels "
+        "(it is defined through them). Exhaustive over the listed grid; one lattice data set per (p, values).",
+        "TLA+ grid model checked with TLC + exhaustive replay against the canonical representation",
+    ),
 }
 
 NOT_YET = {}
